@@ -55,7 +55,18 @@ def mk_sockets(kind):
         out.append(socket.socket(socket.AF_UNIX, socket.SOCK_STREAM))
     if kind == "dgram":
         out.append(socket.socket(socket.AF_INET, socket.SOCK_DGRAM))
+    if kind == "seqpacket":
+        out.append(socket.socket(socket.AF_UNIX, socket.SOCK_SEQPACKET))
+    if kind == "raw_like":
+        out.append(_RawLike(socket.AF_INET, socket.SOCK_STREAM))
     return out
+
+
+class _RawLike(socket.socket):
+    """a real stream socket that reports SOCK_RAW as its type (a real raw socket needs privileges)"""
+    @property
+    def type(self):
+        return socket.SOCK_RAW
 
 
 def kw_of(c):
@@ -81,6 +92,10 @@ def kw_of(c):
         kw["trusted_proxy"] = "10.0.0.1"
     elif c["tp"] == "star":
         kw["trusted_proxy"] = "*"
+    elif c["tp"] == "empty":
+        kw["trusted_proxy"] = ""
+    elif c["tp"] == "null":
+        kw["trusted_proxy"] = None
     if c["tpcount"] == "set":
         kw["trusted_proxy_count"] = "2"
     if c["tph"]:
@@ -89,8 +104,14 @@ def kw_of(c):
         kw["bogus_option"] = "1"
     if argv is not None:
         for k in ("trusted_proxy", "trusted_proxy_count", "trusted_proxy_headers", "bogus_option"):
-            if k in kw:
+            if k in kw and kw[k] is not None:
                 argv.append("--%s=%s" % (k.replace("_", "-"), kw[k]))
+            elif k in kw:
+                argv = None       # None cannot be spelled on a command line
+                break
+    if argv is not None:
+        if True:
+            pass
         argv.append("json:dumps")
     return kw, argv, socks
 
